@@ -4783,7 +4783,9 @@ class Symbol:
         """
         # value_is_valid() accepts only string or 0/2 (corresponding to n/y) values
         if not self.value_is_valid(
-            STR_TO_BOOL[self._sdkconfig_value] if self._sdkconfig_value in ("y", "n") else str(self._sdkconfig_value)
+            STR_TO_BOOL[self._sdkconfig_value]
+            if self.orig_type == BOOL and self._sdkconfig_value in ("y", "n")  # "y" / "n" are ordinary strings elsewhere
+            else str(self._sdkconfig_value)
         ):
             log.note(
                 f"'{self._sdkconfig_value}' is not a valid value for the "
@@ -4804,6 +4806,9 @@ class Symbol:
                 if self._sdkconfig_value in ("y", "n")
                 else self.kconfig._lookup_sym(self._sdkconfig_value)
             )
+            if sym_for_val.nodes:
+                # The stored value is a literal (e.g. the hex number ABC), not a reference to the option of that name.
+                sym_for_val = self.kconfig._lookup_const_sym(self._sdkconfig_value)
 
         # Ignore previous symbol's defaults.
         # They'll be added during finalize_node() for completeness, but won't take any effect;
